@@ -398,7 +398,14 @@ def explore(task_fn, cfg):
         except NotPure:
             obls.append({'id': cfg.task_id + ':in-subset', 'task': cfg.task_id, 'status': 'out-of-subset',
                          'detail': 'effect in pure context'})
+        except RecursionError:
+            obls.append({'id': cfg.task_id + ':in-budget', 'task': cfg.task_id, 'status': 'unknown',
+                         'detail': 'term depth exceeded the recursion budget'})
         except Exception as e:
+            if 'RecursionError' in str(e):
+                obls.append({'id': cfg.task_id + ':in-budget', 'task': cfg.task_id, 'status': 'unknown',
+                             'detail': 'term depth exceeded the recursion budget (solver binding)'})
+                continue
             if type(e).__name__ != 'NotMergeable':
                 raise
             obls.append({'id': cfg.task_id + ':in-subset', 'task': cfg.task_id, 'status': 'out-of-subset',
